@@ -18,7 +18,7 @@ ASSUMPTIONS = [
     "reference orders are written from the definitions (recursion for pre/post order, explicit queue for level order) and use only .children",
     "depth of generated trees stays below Python's recursion limit (<= 60 nodes)",
 ]
-ENUM_CLASSES = ["Node", "SlotLM", "EqNode", "LenNode"]
+ENUM_CLASSES = ["Node", "SlotLM", "EqNode", "LenNode", "ListNode", "TupleNode"]
 
 
 def check_case(case, acc):
@@ -45,6 +45,19 @@ def _once(case, acc, tree, labels):
     def lab(seq):
         return labels.labels(seq)
 
+    # iterator objects are independent: one that is abandoned half-way, or advanced alternately with another one,
+    # must not influence any other iteration
+    for cls in (PreOrderIter, PostOrderIter, LevelOrderIter, LevelOrderGroupIter, ZigZagGroupIter):
+        stale = cls(start)
+        next(stale, None)
+        next(stale, None)
+    inter_a, inter_b = PostOrderIter(start), PostOrderIter(tree[0])
+    mixed = []
+    for _ in range(3):
+        mixed.append(next(inter_a, None))
+        next(inter_b, None)
+    if not refs.same_seq([n for n in mixed if n is not None], post[:3]):
+        raise Violation("interleaved-iteration", "PostOrderIter advanced alternately with another PostOrderIter yields %s, expected %s" % (lab([n for n in mixed if n is not None]), lab(post[:3])))
     got_pre = list(PreOrderIter(start))
     if not refs.same_seq(got_pre, pre):
         raise Violation("preorder", "expected %s got %s" % (lab(pre), lab(got_pre)))
